@@ -1,6 +1,6 @@
 import QV.Model.Compiler
 import QV.Proofs.Circuit
--- PORT-PENDING import QV.Proofs.CompilerClean   (not yet ported to the repaired compiler model, docs/notes/PORT-PENDING.md)
+import QV.Proofs.CompilerClean
 import QV.Model.CompilerClass
 import QV.Proofs.Bennett
 /-!
@@ -13,9 +13,9 @@ the inputs unchanged and returns scratch qubits to zero.
 `xor_oracle_of_clean` is universal (all X/CX/MCX circuits, all f): a circuit that is correct
 and clean from `y = 0` and never uses the output qubit as a control is an xor-oracle for both
 values of `y`.  `validateXor_sound`: the per-instance validator is sound for all `(x, y)`.
-The semantic theorem `C06_fragment_partial` (proved for the model of the unrepaired compiler) is
-parked in a `PORT-PENDING` block until `QV/Proofs/CompilerClean.lean` / `CompilerSem.lean` are
-ported to the repaired compiler model (`docs/notes/PORT-PENDING.md`).
+The semantic theorem `C06_fragment_partial` is proved for the model of the repaired compiler
+(`docs/fixes/CC-*.diff`); its class no longer restricts the arity of `Or` (the repaired `compile_or`
+applies no `X` gate to an argument qubit).
 -/
 namespace QV.C06
 open QV QV.Compiler
@@ -129,9 +129,8 @@ theorem ext_getD {a b : List Bool} (hl : a.length = b.length) (h : ∀ i, a.getD
   have := h i
   simpa [List.getD_eq_getElem?_getD, List.getElem?_eq_getElem h1, List.getElem?_eq_getElem h2] using this
 
-/- PORT-PENDING theorem C06_fragment_partial (needs QV.Proofs.CompilerClean (compile_single_clean) and QV.Proofs.CompilerSem (compile_single_sem); text unchanged)
-/-- **C06 on the tree-like single-definition fragment without De Morgan `Or`** (`inXorFragment`:
-`inCleanFragment`, and the defined name is a return name `_ret…` or the expression is compound, so the
+/-- **C06 on the tree-like single-definition fragment** (`inXorFragment`: `inCleanFragment` – `Or`s of any
+arity –, and the defined name is a return name `_ret…` or the expression is compound, so the
 output qubit is not an argument qubit), with `uncompute = true`: for every successful run of the
 compiler model the qubit `q` of the return name is never a control (`retNeverControl`) and the circuit
 is an xor-oracle `|x>|y> -> |x>|y xor f(x)>` on `q` for the function the definition denotes – inputs
@@ -149,21 +148,21 @@ theorem C06_fragment_partial (inputs : List String) (defs : List (String × BExp
   | [(r, e)], hf, h =>
     simp only [inXorFragment, inCleanFragment, inFragment, Bool.and_eq_true, decide_eq_true_eq, List.all_eq_true,
       bne_iff_ne, ne_eq, Bool.not_eq_true', beq_iff_eq, Bool.or_eq_true] at hf
-    obtain ⟨⟨⟨⟨⟨⟨⟨hnd, hfr⟩, hov⟩, htl⟩, hrets⟩, _⟩, hso⟩, hout⟩ := hf
+    obtain ⟨⟨⟨⟨⟨hnd, hfr⟩, hov⟩, htl⟩, hrets⟩, hout⟩ := hf
     intro r' hr'
     have hrr : r' = r := hrets r' hr'
     subst hrr
     have hgs : Good s := (compile_ok h).1
     have hx0 : (List.replicate inputs.length false).length = inputs.length := by simp
     obtain ⟨q, hq, _, hge, hnc, _⟩ :=
-      compile_single_clean h rfl hr' hnd (fun n hn => hfr n hn) hov htl hso _ hx0
+      compile_single_clean h rfl hr' hnd (fun n hn => hfr n hn) hov htl _ hx0
     have hqn : inputs.length ≤ q := hge hout
     have hqlt : q < s.qc.numQubits := hgs.qmap_lt _ (dictGet?_mem hq)
     refine ⟨q, hq, hqn, hnc hqn, ?_⟩
     apply xor_oracle_of_clean _ _ _ _ _ hqn (hnc hqn)
     intro x hx
     obtain ⟨q', hq', hcl, _, _, _⟩ :=
-      compile_single_clean h rfl hr' hnd (fun n hn => hfr n hn) hov htl hso x hx
+      compile_single_clean h rfl hr' hnd (fun n hn => hfr n hn) hov htl x hx
     obtain ⟨q'', hq'', hv⟩ := compile_single_sem h (fun _ => hr') hnd (fun n hn => hfr n hn) hov htl x hx
     rw [hq] at hq' hq''
     cases hq'; cases hq''
@@ -178,12 +177,16 @@ theorem C06_fragment_partial (inputs : List String) (defs : List (String × BExp
         simp [List.getD_eq_getElem?_getD, hl, evalDefs, envOf]
       · rw [hcl i hi]
         simp [List.getD_eq_getElem?_getD, Ne.symm hi]
-PORT-PENDING end -/
 
 /-- an instance of the class of `C06_fragment_partial` -/
 example : inXorFragment ["a", "b", "c"]
     [("_ret", .and [.or [.and [.sym "a", .not (.sym "b")], .xor [.sym "c", .not (.and [.sym "a", .sym "c"])]],
                     .sym "b"])] ["_ret"] = true := by
+  decide +kernel
+
+/-- another instance: an `Or` with four arguments, three of them bare argument symbols (or-chain) -/
+example : inXorFragment ["a", "b", "c", "d"]
+    [("_ret", .xor [.or [.sym "a", .sym "b", .not (.sym "c"), .sym "d"], .and [.sym "a", .sym "d"]])] ["_ret"] = true := by
   decide +kernel
 
 /-- the part of `inCleanFragment` the class excludes: a bare argument symbol under a name that is not a
